@@ -37,16 +37,30 @@ def native_replay(crate_dir, runner, spec, prop):
     """Re-run the failing harness with concrete playback, then execute the generated test natively
     (dev profile, and release profile) against the same scratch copy of the crate.
     Returns (reproduced: bool, replay_path, text)"""
-    r = runner.run_one(spec.fq, timeout=spec.timeout, extra=(spec.extra_args or []) + ["-Z", "concrete-playback", "--concrete-playback=inplace"])
-    m = re.findall(r"- (kani_concrete_playback_\w+)", r.log)
+    r = runner.run_one(spec.fq, timeout=spec.timeout, extra=(spec.extra_args or []) + ["-Z", "concrete-playback", "--concrete-playback=print"])
     os.makedirs(os.path.join(REPLAY_DIR, prop), exist_ok=True)
     path = os.path.join(REPLAY_DIR, prop, spec.fq.replace("::", "__") + ".txt")
+    # Kani prints one unit test per failed check / satisfied cover; keep those of failed checks, dedupe by name
+    # (identical values give identical names) and insert them at the end of the injected module ourselves.
+    tests = {}
+    for blk in re.findall(r"```\n(.*?)```", r.log, re.S):
+        if "Check for `cover`" in blk:
+            continue
+        mm = re.search(r"fn (kani_concrete_playback_\w+)\(", blk)
+        if mm:
+            tests.setdefault(mm.group(1), blk)
+    m = list(tests)
     if not m:
         open(path, "w").write("harness %s failed under Kani but no concrete playback test was generated\n%s\n" % (spec.fq, r.log[-4000:]))
         return False, path, "no playback test generated"
+    srcfile = os.path.join(crate_dir, "src", spec.fq.split("::")[0] + ".rs")
+    text0 = open(srcfile).read()
+    cut = text0.rstrip().rfind("}")
+    body = "\n".join(b for n, b in tests.items() if ("fn " + n + "(") not in text0)
+    open(srcfile, "w").write(text0[:cut] + "\n" + body + "\n}\n")
     out_all = []
     reproduced = False
-    for prof in ([], ["--release"]):
+    for prof in ([],):  # cargo kani playback (0.68) has no --release; dev is the profile Kani models
         cmd = ["cargo", "kani", "playback", "-Z", "concrete-playback"] + prof + ["--", "kani_concrete_playback_" + spec.fq.split("::")[-1]]
         env = dict(runner.env, CARGO_TARGET_DIR=os.path.join(crate_dir, "pbt"))
         try:
@@ -60,6 +74,7 @@ def native_replay(crate_dir, runner, spec, prop):
                                               " | ".join(x.replace("\n", " ") for x in panic[:2])))
         if failed:
             reproduced = True
+        raw_tail = out[-1500:]
     # keep the generated test text for the replay file
     src = ""
     for root, _, files in os.walk(os.path.join(crate_dir, "src")):
@@ -70,6 +85,8 @@ def native_replay(crate_dir, runner, spec, prop):
                 src = t[max(0, t.rfind("///", 0, i) - 200): i + 1500]
     text = "property=%s harness=%s\nkani failed checks: %s\nnative replay: %s\n\n--- generated concrete playback test ---\n%s\n" % (
         prop, spec.fq, r.failed_desc(), "; ".join(out_all), src)
+    if not reproduced:
+        text += "\n--- tail of the last playback run ---\n" + raw_tail
     open(path, "w").write(text)
     return reproduced, path, "; ".join(out_all)
 
